@@ -361,8 +361,12 @@ func c19GenClientFaults(w *c19CliWorld, cfg c19CliCfg, base c19CliRun, donors []
 	}
 }
 
+// c19CliFamily: "www/xor/sig" -> "xor", "mitm/host-rewritten" -> "mitm/host-rewritten", "status" -> "status"
 func c19CliFamily(kind string) string {
 	p := strings.Split(kind, "/")
+	if (p[0] == "www" || p[0] == "info") && len(p) > 1 {
+		return p[1]
+	}
 	if len(p) > 2 {
 		p = p[:2]
 	}
@@ -449,7 +453,6 @@ func TestVerifC19Client(t *testing.T) {
 						{"other-server-keytype", c19ClientRun(t, w.keys, w.server(nextKT, "A"), client, hn, flow, seed+"|srvC", nil)},
 						{"other-client", c19ClientRun(t, w.keys, S, w.keys.get(ckt, "client1"), hn, flow, seed+"|client1", nil)},
 					}
-					t0, n0 := time.Now(), r.Executions
 					c19GenClientFaults(w, cfg, base, donors, masks, vrep.Thorough(), func(f *c19Fault) {
 						generated++
 						if only != nil {
@@ -479,7 +482,7 @@ func TestVerifC19Client(t *testing.T) {
 						case run.id == S.key.id:
 							cls = "honest server's ID"
 						default:
-							cls = "another ID (" + strings.SplitN(w.keys.name(run.id), "/", 2)[0] + ")"
+							cls = "another ID"
 						}
 						r.Outcome(c19CliFamily(f.Kind) + " -> " + cls)
 						if only != nil {
@@ -493,7 +496,7 @@ func TestVerifC19Client(t *testing.T) {
 							}
 						}
 						fam := c19CliFamily(f.Kind)
-						if !sampled[fam] && len(sampled) < 6 && (strings.HasPrefix(fam, "mitm") || strings.Contains(fam, "swap") || strings.Contains(fam, "xor") || strings.Contains(fam, "replace")) {
+						if !sampled[fam] && len(sampled) < 4 && (strings.HasPrefix(fam, "mitm") || strings.Contains(fam, "swap") || strings.Contains(fam, "xor") || strings.Contains(fam, "replace")) {
 							sampled[fam] = true
 							var delivered []string
 							for _, e := range run.log {
@@ -502,9 +505,6 @@ func TestVerifC19Client(t *testing.T) {
 							r.Sample(map[string]any{"config": cfg.name(), "flow": flow, "fault": f.key(), "responses_delivered": delivered, "outcome": cls, "error": fmt.Sprint(run.err)})
 						}
 					})
-					if os.Getenv("VERIF_C19_DUMP") != "" {
-						t.Logf("timing %s %s: %d executions in %v", cfg.name(), flow, r.Executions-n0, time.Since(t0))
-					}
 				}
 			}
 		}
